@@ -410,6 +410,31 @@ pub fn responses(max_n: usize, max_payload: usize, max_value: usize) -> impl Str
     prop::collection::vec(response(max_payload, max_value), 1..=max_n)
 }
 
+/// A response whose payload makes the receive buffer double past 64 KiB (4096 -> ... -> 131072).
+pub fn huge_response() -> impl Strategy<Value = AResp> {
+    (prop_oneof![Just(61_440usize), Just(65_535), Just(65_536), Just(70_000), Just(100_000), Just(131_072), Just(140_000)], any::<u8>(), any::<bool>()).prop_map(
+        |(n, a, field_first)| {
+            let data: Vec<u8> = (0..n).map(|i| a.wrapping_add((i as u8).wrapping_mul(31))).collect();
+            let mut items = vec![Item::Binary(B(data))];
+            if field_first {
+                items.insert(0, Item::Field("size".into(), n.to_string()));
+            }
+            AResp::Single(AFrame { items })
+        },
+    )
+}
+
+/// `responses`, and in 1 case of `one_in` a huge response inserted at a generated position.
+pub fn responses_maybe_huge(max_n: usize, max_payload: usize, max_value: usize, one_in: u32) -> impl Strategy<Value = Vec<AResp>> {
+    (responses(max_n, max_payload, max_value), prop::option::weighted(1.0 / one_in as f64, (huge_response(), any::<u16>()))).prop_map(|(mut v, huge)| {
+        if let Some((h, at)) = huge {
+            let i = crate::core::pick_idx(at, v.len() + 1);
+            v.insert(i, h);
+        }
+        v
+    })
+}
+
 /// Classification used for the non-trivial rules of C02/C03.
 pub fn mimics_keyword(r: &AResp) -> bool {
     fn fr(f: &AFrame) -> bool {
